@@ -1094,8 +1094,9 @@ impl<'a> CompactionIterator<'a> {
 
 		// We need to iterate with indices to access accumulated_versions
 		let len = self.accumulated_versions.len();
+		let mut output_decisions: Vec<bool> = Vec::with_capacity(len);
 		for i in 0..len {
-			let (key, value) = &self.accumulated_versions[i];
+			let (key, _) = &self.accumulated_versions[i];
 			let is_hard_delete = key.is_hard_delete_marker();
 			let is_replace = key.is_replace();
 			let is_latest = i == 0;
@@ -1241,9 +1242,7 @@ impl<'a> CompactionIterator<'a> {
 				is_latest
 			};
 
-			if should_output {
-				self.output_versions.push((key.clone(), value.clone()));
-			}
+			output_decisions.push(should_output);
 
 			// Update for next iteration (this version becomes the "newer" one)
 			newer_version_visibility = Some(current_visibility);
@@ -1252,6 +1251,30 @@ impl<'a> CompactionIterator<'a> {
 			}
 			if is_hard_delete {
 				newer_hard_delete = Some(seq_num);
+			}
+		}
+
+		// A REPLACE (or hard DELETE) hides the versions below it from every reader
+		// that began after it. When one of those versions is kept - an older
+		// snapshot still needs it - the barrier has to stay as well, even if it has
+		// left the retention window: without it the version below would show up
+		// again in the history and in point-in-time reads of new readers.
+		if self.enable_versioning {
+			let mut kept_below = false;
+			for i in (0..len).rev() {
+				if output_decisions[i] {
+					kept_below = true;
+				} else if kept_below {
+					let key = &self.accumulated_versions[i].0;
+					if key.is_replace() || key.is_hard_delete_marker() {
+						output_decisions[i] = true;
+					}
+				}
+			}
+		}
+		for (i, (key, value)) in self.accumulated_versions.iter().enumerate() {
+			if output_decisions[i] {
+				self.output_versions.push((key.clone(), value.clone()));
 			}
 		}
 
